@@ -1,4 +1,5 @@
 import Gsu.Model.Btree
+import Gsu.Model.BtreeLeaf
 import Gsu.Gen.Btree
 open Gsu.Proto Gsu.Btree
 
@@ -36,6 +37,12 @@ def step (m : List KV) (l : List String) : List KV × String :=
     match parseBytes k with
     | some k => (m, toString ((lookup m k).getD 0))
     | none => (m, "bad-op")
+  | "leaves" :: n :: toks =>
+    -- bulk build: key count and byte size of every leaf, left to right
+    match parseNat n, allSome (toks.map parseBytes) with
+    | some n, some ks =>
+      (m, " ".intercalate ((leaves n ks).map fun (c, sz) => toString c ++ ":" ++ toString sz))
+    | _, _ => (m, "bad-op")
   | ["iter"] => (m, showIter m)
   | _ => (m, "bad-op")
 
